@@ -856,18 +856,49 @@ func c15Worker(w *World, r *Report, id, slug string) {
 					func(l Lit) bool { return l.Kind == "eq" && !l.Neg && l.B == "nil" && l.A == "lease" })
 			} else if isConstBool(cc.Args[1], false) {
 				// fine on any edge
+			} else if l, ok := ctx.CondLit(cc.Args[1]); ok && l.Kind == "eq" && !l.Neg && l.B == "nil" && l.A == "lease" {
+				// leased := (err == nil): true exactly when the lease was granted
 			} else {
 				ob.Violate("leased-value", in.Pos(), "the leased flag is set to `"+Expr(cc.Args[1])+"`")
 			}
 		})
-		// on the error edge the flag must become false before the next use
+		// on the error edge the flag must become false before the next use - unless the flag is
+		// set to the outcome itself (`leased := err == nil`) on every way to the next wait
+		isExact := func(x ssa.Instruction) bool {
+			cc := callOf(x)
+			if cc == nil || !(strings.HasSuffix(CalleeName(cc), "atomic.Bool).Store") || strings.HasSuffix(CalleeName(cc), "atomic.Bool).Swap")) {
+				return false
+			}
+			l2, ok := ctx.CondLit(cc.Args[1])
+			return ok && l2.Kind == "eq" && !l2.Neg && l2.B == "nil" && l2.A == "lease"
+		}
+		exactAlways := false
+		nExact := 0
+		eachInstr(f, func(x ssa.Instruction) {
+			if isExact(x) {
+				nExact++
+			}
+		})
+		if nExact > 0 {
+			exactAlways = (&Walk{Barrier: isExact, Target: func(x ssa.Instruction) bool { _, ok := x.(*ssa.Select); return ok }}).Find(after(lease.(ssa.Instruction))) == nil
+		}
 		for _, b := range f.Blocks {
+			if exactAlways {
+				break
+			}
 			for k := range b.Succs {
 				for _, l := range ctx.EdgeLits(b, k) {
 					if l.Kind == "eq" && l.Neg && l.B == "nil" && l.A == "lease" {
 						isFalseStore := func(x ssa.Instruction) bool {
 							cc := callOf(x)
-							return cc != nil && (strings.HasSuffix(CalleeName(cc), "atomic.Bool).Store") || strings.HasSuffix(CalleeName(cc), "atomic.Bool).Swap")) && isConstBool(cc.Args[1], false)
+							if cc == nil || !(strings.HasSuffix(CalleeName(cc), "atomic.Bool).Store") || strings.HasSuffix(CalleeName(cc), "atomic.Bool).Swap")) {
+								return false
+							}
+							if isConstBool(cc.Args[1], false) {
+								return true
+							}
+							l2, ok := ctx.CondLit(cc.Args[1])
+							return ok && l2.Kind == "eq" && !l2.Neg && l2.B == "nil" && l2.A == "lease"
 						}
 						p := (&Walk{Barrier: isFalseStore, Target: func(x ssa.Instruction) bool {
 							if _, ok := x.(*ssa.Select); ok {
